@@ -767,10 +767,10 @@ func (s *Sess) PublicSnapshot() string {
 		for _, id := range sn.IDs {
 			fmt.Fprintf(&sb, "%x.", sn.Vals[id])
 		}
-		fmt.Fprintf(&sb, " ids=%v\n", s.nums(w.Ids(e)))
+		fmt.Fprintf(&sb, " ids=%v\n", s.nums(scribbled(w.Ids(e))))
 	}
 	fmt.Fprintf(&sb, "locked %v\n", w.IsLocked())
-	for i, id := range ecs.ResourceIDs(w) {
+	for i, id := range scribbledRes(ecs.ResourceIDs(w)) {
 		has := w.Resources().Has(id)
 		var ptr uintptr
 		if r := w.Resources().Get(id); r != nil {
@@ -779,7 +779,7 @@ func (s *Sess) PublicSnapshot() string {
 		tp, _ := ecs.ResourceType(w, id)
 		fmt.Fprintf(&sb, "res %d %v %x %v\n", i, has, ptr, tp)
 	}
-	for i, id := range ecs.ComponentIDs(w) {
+	for i, id := range scribbled(ecs.ComponentIDs(w)) {
 		info, ok := ecs.ComponentInfo(w, id)
 		fmt.Fprintf(&sb, "comp %d %v %v %v\n", i, ok, info.Type, info.IsRelation)
 	}
